@@ -63,6 +63,17 @@ def hostile_lines(rng, n):
                 for txt in ("%s, %s %s %s %s %s" % (wd, d, mo, y, t, z), "%sday, %s-%s-%s %s %s" % (wd, d, mo, y[-2:], t, z))[: 2 if z in ("GMT", "+0100", "-0001") else 1]:
                     x = txt.strip().encode()
                     lines.append("c19.date_parse\t%s" % hx(x)); meta.append(("c19.date_parse", x))
+    # every typed header parsed from text (Header::parse, Headers::get / remove): seeds, their mutations, and - systematically - every
+    # prefix, every suffix and every one-character deletion of every seed (truncated values are what a cut-off line or a sloppy peer gives)
+    TSEEDS = {"cdisp": [b'attachment; filename="report.pdf"', b"inline", b'attachment;filename="x"', b"attachment; filename*0*=utf-8''a%20b", b'inline; filename="a\\"b"'],
+              "cte": [b"7bit", b"quoted-printable", b"base64", b"BINARY"], "mimeversion": [b"1.0", b"12.345", b"1.0 (comment)"],
+              "ctype": SEEDS["c19.ctype"], "date": SEEDS["c19.date_parse"], "from": SEEDS["mboxes.parse"], "to": SEEDS["mboxes.parse"], "sender": SEEDS["mbox.parse"], "subject": [b"plain", "é".encode()]}
+    for kind, seeds in TSEEDS.items():
+        for sd in seeds:
+            variants = {sd[:i] for i in range(len(sd) + 1)} | {sd[i:] for i in range(len(sd) + 1)} | {sd[:i] + sd[i + 1:] for i in range(len(sd))}
+            variants |= {mutate(rng, sd) for _ in range(max(4, n // 20))}
+            for v in sorted(variants):
+                lines.append("c19.typed_parse\t%s\t%s" % (kind, hx(v))); meta.append(("c19.typed_parse:" + kind, v))
     # header values / names / file names, bodies
     for k in range(n):
         v = mutate(rng, rng.choice([b"Hello world", "Grüße".encode(), b"a" * 100, b"x  y\tz"]))
